@@ -36,6 +36,59 @@ def default_cfg(cls, N, cplx):
     return {"order": order}
 
 
+def random_cfg(nrng, cls, N, boundary=False):
+    """a configuration drawn from the estimator's documented domain; boundary=True picks the extreme admissible values"""
+    from spectrum.window import window_names
+    wn = sorted(window_names)
+    if cls == "Periodogram":
+        return {"window": wn[int(nrng.integers(0, len(wn)))]}
+    if cls == "pcorrelogram":
+        lag = (N - 1) if boundary else int(nrng.integers(1, max(2, N // 2)))
+        return {"lag": lag, "window": wn[int(nrng.integers(0, len(wn)))]}
+    if cls in ("pburg", "pyule", "pminvar"):
+        hi = {"pburg": N - 2, "pyule": N - 1, "pminvar": N // 2}[cls]
+        hi = max(2 if cls == "pminvar" else 1, min(hi, 12))
+        lo = 2 if cls == "pminvar" else 1
+        return {"order": hi if boundary else int(nrng.integers(lo, hi + 1))}
+    if cls in ("pcovar", "pmodcovar"):
+        hi = max(1, min(N // 2 - 1, 10))
+        return {"order": hi if boundary else int(nrng.integers(1, hi + 1))}
+    if cls == "parma":
+        P = int(nrng.integers(1, 4))
+        Q = int(nrng.integers(1, 4))
+        lag = (N - 2 * P + Q) if boundary else int(nrng.integers(max(Q, 2 * P) + 1, max(Q, 2 * P) + 6))
+        lag = min(lag, N - 1)
+        return {"order": P, "Q": Q, "lag": lag}
+    if cls == "pma":
+        Q = int(nrng.integers(1, 4))
+        M = (N - 1) if boundary else int(nrng.integers(Q + 1, Q + 6))
+        return {"Q": Q, "M": min(M, N - 1)}
+    if cls in ("pmusic", "pev"):
+        P = int(nrng.integers(3, 9))
+        return {"order": P, "nsig": (P - 1) if boundary else int(nrng.integers(1, P))}
+    if cls.startswith("MT"):
+        NW = [1.5, 2.0, 2.5, 3.0, 4.0][int(nrng.integers(0, 5))]
+        kmax = int(2 * NW)
+        lo = 2 if cls == "MT-adapt" else 1
+        return {"NW": NW, "k": kmax if boundary else int(nrng.integers(lo, kmax + 1))}
+    return default_cfg(cls, N, False)
+
+
+def min_nfft(cls, N, cfg):
+    """smallest admissible NFFT (C05): N for periodogram / multitaper, 2*lag+1, 2*order, model order + 1"""
+    if cls == "pcorrelogram":
+        return 2 * cfg["lag"] + 1
+    if cls == "pminvar":
+        return 2 * cfg["order"]
+    if cls == "Periodogram" or cls.startswith("MT"):
+        return N
+    if cls == "pma":
+        return cfg["Q"] + 1
+    if cls == "parma":
+        return max(cfg["order"], cfg["Q"]) + 1
+    return cfg["order"] + 1
+
+
 def make(cls, x, nfft=None, fs=1.0, scale=False, cfg=None):
     s = sp()
     cfg = cfg or default_cfg(cls, len(x), np.iscomplexobj(x))
